@@ -94,6 +94,9 @@ inductive Val where
   | node (d : Nat) (n : Node)                   -- non-nil pointer to a node of document d
   | nilNode (kind : String)                     -- (*gedcom.<kind>)(nil)
   | tag (t : Str)                               -- gedcom.Tag
+  | raw (d : Nat) (n : Node)                    -- the *gedcom.SimpleNode embedded in node n (RawSimpleNode, field SimpleNode)
+  | date (p : PDate) (isEnd : Bool)             -- gedcom.Date, a struct value (DateNode.StartDate / EndDate)
+  | named (goType : String) (i : Int)           -- a value of a named integer type (time.Month, gedcom.DateConstraint)
   | slice (name : String) (elem : Ty) (isNil : Bool) (vs : List Val)
   | map (fs : List (Str × Val))                 -- map[string]interface{}, sorted by key
 deriving Repr, Inhabited
@@ -114,6 +117,9 @@ def Val.ty : Val → Option Ty
   | .node _ n => some (.ptr (Node.kind n))
   | .nilNode k => some (.ptr k)
   | .tag _ => some .tag
+  | .raw _ _ => some (.ptr "SimpleNode")
+  | .date _ _ => some .date
+  | .named g _ => some (.opaque g)
   | .slice nm e _ _ => some (.slice nm e)
   | .map _ => some .map
 
@@ -323,6 +329,18 @@ def hasField (recv : String) (m : Str) : Bool :=
   | some (_, fs) => fs.any (fun f => ascii f == m)
   | none => false
 
+/-- (FieldByName succeeds on the zero struct, type of the field) -/
+def fieldInfo (recv : String) (m : Str) : Option (Bool × Ty) :=
+  match Generated.Query.fieldInfo.find? (·.1 == recv) with
+  | some (_, fs) => (fs.find? (fun f => ascii f.1 == m)).map (·.2)
+  | none => none
+
+/-- exported: the first byte is an upper-case ASCII letter (the generated names are Go identifiers) -/
+def isExportedName (m : Str) : Bool :=
+  match m with
+  | c :: _ => 65 ≤ c && c ≤ 90
+  | [] => false
+
 def knownRecv (recv : String) : Bool := Generated.Query.methods.any (·.1 == recv)
 
 def sliceHasMethod (name : String) (m : Str) : Bool :=
@@ -336,6 +354,7 @@ def recvOfTy : Ty → Option String
   | .doc => some "Document"
   | .ptr k => some k
   | .tag => some "Tag"
+  | .date => some "Date"
   | _ => none
 
 /-! ### The accessor menu: methods the model evaluates -/
@@ -360,6 +379,68 @@ def ofRes {α} (r : Resolve.Res α) (f : α → Val) : MenuResult :=
   | .ok a => .val (f a)
   | .panic _ => .recovered
 
+/-! tag metadata (Generated/Tags.lean: gedcom.Tags(); an unregistered tag is `TagFromString`'s
+    `Tag{tag: t, name: t}`) -/
+def tagInfoOf (t : Str) : Option (Bool × Bool × Nat) :=
+  (Generated.tagInfo.find? (fun e => ascii e.1 == t)).map (·.2)
+def tagIsEvent (t : Str) : Bool := match tagInfoOf t with | some (e, _, _) => e | none => false
+def tagIsKnown (t : Str) : Bool := (tagInfoOf t).isSome
+/-- `Tag.IsOfficial`: not empty and not starting with an underscore -/
+def tagIsOfficial (t : Str) : Bool := match t with | c :: _ => c != 95 | [] => false
+def tagSortValue (t : Str) : Nat :=
+  match tagInfoOf t with | some (_, _, v) => v | none => Generated.Query.unknownTagSortValue
+/-- `Tag.String`: the registered name, the tag itself for an unregistered one -/
+def tagName (t : Str) : Str :=
+  match Generated.Query.tagNames.find? (fun e => ascii e.1 == t) with
+  | some e => utf8 e.2
+  | none => t
+
+/-- the `*SimpleNode` embedded in a node: for a node that *is* a `*SimpleNode` it is the node -/
+def mkRaw (d : Nat) (n : Node) : Val := if Node.kind n == "SimpleNode" then .node d n else .raw d n
+
+/-- `SimpleNode.ShallowCopy` = `NewNode(tag, value, pointer)`: a new node of the tag's type without
+    children, outside every document (modelled as document index `nDocs`); NewNode panics for the
+    types that need a family or a document.  (`IndividualNode`/`FamilyNode` have their own
+    ShallowCopy, which adds the copy to the document: outside the menu.) -/
+def shallowCopy (nDocs : Nat) (n : Node) : MenuResult :=
+  let k := Node.kind n
+  if k == "HusbandNode" || k == "WifeNode" || k == "ChildNode" || k == "IndividualNode" || k == "FamilyNode" then .recovered
+  else .val (.node nDocs (.mk n.tag n.value n.ptr []))
+
+/-- `SimpleNode.ObjectMap` -/
+def objectMapOf (d : Nat) (n : Node) : Val :=
+  .map ((if n.kids.isEmpty then [] else [(ascii "Nodes", mkNodes d n.kids)])
+    ++ (if n.ptr.isEmpty then [] else [(ascii "Pointer", .str n.ptr)])
+    ++ [(ascii "Tag", .str n.tag)]
+    ++ (if n.value.isEmpty then [] else [(ascii "Value", .str n.value)]))
+
+/-- the methods every node type gets from the embedded `*SimpleNode` and that need the node only -/
+def simpleMenu (nDocs : Nat) (m : String) (d : Nat) (n : Node) : Option MenuResult :=
+  match m with
+  | "RawSimpleNode" => some (.val (mkRaw d n))
+  | "ShallowCopy" => some (shallowCopy nDocs n)
+  | "Identifier" => some (.val (.str ([64] ++ n.ptr ++ [64])))
+  | "ObjectMap" => some (.val (objectMapOf d n))
+  | _ => none
+
+def firstKidOr (d : Nat) (n : Node) (tag kind : String) : Val :=
+  match kidsWithTag n tag with | k :: _ => .node d k | [] => .nilNode kind
+
+/-- `IndividualNode.EstimatedDeathDate`: the minimum death date, else the minimum burial date -/
+def estimatedDeathDate (n : Node) : Option Node :=
+  match minimumDate (shallowDates (kidsWithTag n "DEAT")) with
+  | some d => some d
+  | none => minimumDate (shallowDates (kidsWithTag n "BURI"))
+
+def optDate (d : Nat) : Option Node → Val
+  | some x => .node d x
+  | none => .nilNode "DateNode"
+
+def zeroDate : PDate := ⟨0, 0, 0, .exact, false⟩
+
+/-- `Date.IsExact` -/
+def dateIsExact (p : PDate) : Bool := p.day != 0 && p.constraint == .exact
+
 /-- A modelled niladic method on a receiver; `none`: not in the menu. -/
 def callMenu (now : Nat) (docs : List Forest) (recv : String) (m : String) (v : Val) : Option MenuResult :=
   match v with
@@ -370,11 +451,32 @@ def callMenu (now : Nat) (docs : List Forest) (recv : String) (m : String) (v : 
     | "Families" => some (.val (.slice "FamilyNodes" (.ptr "FamilyNode") false ((rootsOfKind f "FamilyNode").map (.node i))))
     | "Nodes" => some (.val (mkNodes i f))
     | "String" => some (.val (.str (renderNodes 0 f)))          -- Document.String = GEDCOMString(0), no BOM
+    | "Sources" => some (.val (.slice "" (.ptr "SourceNode") false ((rootsOfKind f "SourceNode").map (.node i))))   -- `sources := []*SourceNode{}`
     | _ => none
   | .tag t =>
     match m with
     | "Tag" => some (.val (.str t))
+    | "String" => some (.val (.str (tagName t)))
+    | "IsEvent" => some (.val (.bool (tagIsEvent t)))
+    | "IsKnown" => some (.val (.bool (tagIsKnown t)))
+    | "IsOfficial" => some (.val (.bool (tagIsOfficial t)))
+    | "SortValue" => some (.val (.int (tagSortValue t)))
     | _ => none
+  | .raw d n =>
+    match m with
+    | "Tag" => some (.val (.tag n.tag))
+    | "Value" => some (.val (.str n.value))
+    | "Pointer" => some (.val (.str n.ptr))
+    | "Nodes" => some (.val (mkNodes d n.kids))
+    | "String" => if Generated.Query.stringIsValue.contains "SimpleNode" then some (.val (.str n.value)) else none
+    | _ => simpleMenu docs.length m d n
+  | .date p isEnd =>
+    match m with
+    | "Years" => let y := p.yearsFrac; some (.val (.float y.1 y.2.toNat))
+    | "String" => some (.val (.str p.toString))
+    | "IsZero" => some (.val (.bool p.isZero))
+    | "IsExact" => some (.val (.bool (dateIsExact p)))
+    | _ => let _ := isEnd; none
   | .node d n =>
     match m with
     | "Tag" => some (.val (.tag n.tag))
@@ -438,18 +540,50 @@ def callMenu (now : Nat) (docs : List Forest) (recv : String) (m : String) (v : 
       | "PlaceNode", "County" => some (.val (.str (placeParts n).2.1))
       | "PlaceNode", "State" => some (.val (.str (placeParts n).2.2.1))
       | "PlaceNode", "Country" => some (.val (.str (placeCountry n)))
+      | "IndividualNode", "EstimatedBirthDate" => some (.val (optDate d (estimatedBirthDate n)))
+      | "IndividualNode", "EstimatedDeathDate" => some (.val (optDate d (estimatedDeathDate n)))
+      | "IndividualNode", "LDSBaptisms" => some (.val (.slice "Nodes" .nodeI false ((kidsWithTag n "BAPL").map (.node d))))
+      | "IndividualNode", "UniqueIDs" =>
+        let us := kidsWithTag n "_UID"
+        some (.val (.slice "" (.ptr "UniqueIDNode") us.isEmpty (us.map (.node d))))      -- `nodes` stays nil until appended
+      | "IndividualNode", "AllEvents" =>
+        let es := n.kids.filter (fun k => tagIsEvent k.tag)
+        some (.val (.slice "Nodes" .nodeI es.isEmpty (es.map (.node d))))
+      | "IndividualNode", "ShallowCopy" | "FamilyNode", "ShallowCopy" => none      -- adds the copy to the document
+      | "NameNode", "Prefix" => some (.val (.str (firstChildValue n "NPFX")))
+      | "NameNode", "Suffix" => some (.val (.str (nameSuffix n)))
+      | "NameNode", "SurnamePrefix" => some (.val (.str (firstChildValue n "SPFX")))
+      | "NameNode", "Title" => some (.val (.str (firstChildValue n "TITL")))
+      | "SourceNode", "Title" => some (.val (.str (match kidsWithTag n "TITL" with | k :: _ => k.value | [] => [])))
+      | "PlaceNode", "Format" => some (.val (firstKidOr d n "FORM" "FormatNode"))
+      | "PlaceNode", "Map" => some (.val (firstKidOr d n "MAP" "MapNode"))
+      | "PlaceNode", "Notes" => some (.val (.slice "" (.ptr "NoteNode") false ((kidsWithTag n "NOTE").map (.node d))))
+      | "PlaceNode", "PhoneticVariations" => some (.val (.slice "" (.ptr "PhoneticVariationNode") false ((kidsWithTag n "FONE").map (.node d))))
+      | "PlaceNode", "RomanizedVariations" => some (.val (.slice "" (.ptr "RomanizedVariationNode") false ((kidsWithTag n "ROMN").map (.node d))))
+      | "MapNode", "Latitude" => some (.val (firstKidOr d n "LATI" "LatitudeNode"))
+      | "MapNode", "Longitude" => some (.val (firstKidOr d n "LONG" "LongitudeNode"))
+      | "EventNode", "Years" | "ResidenceNode", "Years" =>
+        some (.val (match minimumDate (kidsWithTag n "DATE") with
+          | some x => let y := dateNodeYears x; .float y.1 y.2
+          | none => .float 0 1))
+      | "DateNode", "StartDate" => some (.val (.date (parseDateRange n.value).start false))
+      | "DateNode", "EndDate" => some (.val (.date (parseDateRange n.value).end_ true))
+      | "DateNode", "IsExact" =>
+        let r := parseDateRange n.value
+        some (.val (.bool (dateIsExact r.start && dateIsExact r.end_)))
+      | "DateNode", "IsPhrase" => some (.val (.bool (parseDateRange n.value).isPhrase))
       | k, "Dates" =>
         if eventKinds.contains k then
           let ds := kidsWithTag n "DATE"
           some (.val (.slice "DateNodes" (.ptr "DateNode") ds.isEmpty (ds.map (.node d))))    -- `Dates(node)`: nil until appended
         else none
       | k, "String" => if Generated.Query.stringIsValue.contains k then some (.val (.str n.value)) else none
-      | _, _ => none
+      | _, m => simpleMenu docs.length m d n
   | .nilNode k =>
     -- a typed nil pointer: the method is found and called; it returns a zero value or
     -- dereferences nil (which evaluateAccessor recovers into an error)
     match m with
-    | "Tag" | "Value" | "Pointer" | "Nodes" =>
+    | "Tag" | "Value" | "Pointer" | "Nodes" | "RawSimpleNode" | "ShallowCopy" | "Identifier" | "ObjectMap" =>
       if k == "SimpleNode" then none else some .recovered   -- promoted through the nil embedded pointer
     | _ =>
       match k, m with
@@ -480,11 +614,43 @@ def callMenu (now : Nat) (docs : List Forest) (recv : String) (m : String) (v : 
       | "DateNode", "Years" => some (.val (.float 0 1))
       | "DateNode", "String" => some (.val (.str []))
       | "DateNode", "IsValid" => some (.val (.bool false))
+      | "IndividualNode", "EstimatedBirthDate" | "IndividualNode", "EstimatedDeathDate" => some (.val (.nilNode "DateNode"))
+      | "IndividualNode", "LDSBaptisms" => some (.val (.slice "Nodes" .nodeI true []))
+      | "IndividualNode", "UniqueIDs" => some (.val (.slice "" (.ptr "UniqueIDNode") true []))
+      | "IndividualNode", "AllEvents" => some .recovered
+      | "NameNode", "Prefix" | "NameNode", "Suffix" | "NameNode", "SurnamePrefix" | "NameNode", "Title" => some (.val (.str []))
+      | "MapNode", "Latitude" => some (.val (.nilNode "LatitudeNode"))
+      | "MapNode", "Longitude" => some (.val (.nilNode "LongitudeNode"))
+      | "DateNode", "StartDate" | "DateNode", "EndDate" => some (.val (.date zeroDate false))
+      | "DateNode", "IsExact" | "DateNode", "IsPhrase" => some (.val (.bool false))
       | k', "Dates" => if eventKinds.contains k' then some (.val (.slice "DateNodes" (.ptr "DateNode") true [])) else none
       | _, _ => none
   | _ => none
 
 def strOfAscii? (s : Str) : String := String.ofList (s.map (fun b => Char.ofNat b.toNat))
+
+/-- An exported struct field the model reads (`getField` + `field.Interface()`); `none`: outside
+    the menu.  `SimpleNode` is the embedded pointer of every node type; the fields of a
+    `gedcom.Date`; a nil `ParseError` is the nil interface. -/
+def fieldMenu (f : String) (v : Val) : Option Val :=
+  match v with
+  | .node d n => if f == "SimpleNode" then some (mkRaw d n) else none
+  | .date p isEnd =>
+    match f with
+    | "Day" => some (.int p.day)
+    | "Month" => some (.named "time.Month" p.month)
+    | "Year" => some (.int p.year)
+    | "IsEndOfRange" => some (.bool isEnd)
+    | "Constraint" => some (.named "gedcom.DateConstraint" p.constraint.toNat)
+    | "ParseError" => if p.parseError then none else some .nil
+    | _ => none
+  | _ => none
+
+/-- is the value a nil pointer (reflect: `in.Elem()` is the zero Value, `FieldByName` panics,
+    `getField` recovers and reports no field) -/
+def Val.isNilPtr : Val → Bool
+  | .nilNode _ => true
+  | _ => false
 
 /-- `evaluateAccessor` on a non-nil, non-slice input: look the name up as method, then as field;
     a panic of the call is recovered into an error. -/
@@ -508,7 +674,14 @@ def accessSingle (now : Nat) (docs : List Forest) (acc : Str) (v : Val) : Outcom
           | some r => r.toOutcome
           | none => .unsupported "method outside the modelled menu"
       | none =>
-        if hasField recv acc then .unsupported "struct field" else .error .noSuchAccessor
+        match fieldInfo recv acc with
+        | none => .error .noSuchAccessor
+        | some _ =>
+          if v.isNilPtr then .error .noSuchAccessor             -- FieldByName on the zero Value panics inside getField
+          else if !isExportedName acc then .error .methodPanicked   -- field.Interface() of an unexported field panics (recovered)
+          else match fieldMenu (strOfAscii? acc) v with
+            | some r => .ok r
+            | none => .unsupported "struct field outside the modelled menu"
 
 /-- `getReturnType(accessor, reflect.New(t).Interface())` for the element type of a slice. -/
 def returnType (elem : Ty) (acc : Str) : Outcome Ty :=
@@ -523,7 +696,12 @@ def returnType (elem : Ty) (acc : Str) : Outcome Ty :=
       if !knownRecv recv then .unsupported "receiver type missing from the reflection tables" else
       match methodInfo recv acc with
       | some (_, nout, out) => if nout == 0 then .panic .noResult else .ok out
-      | none => if hasField recv acc then .unsupported "struct field" else .panic .nilType
+      | none =>
+        -- `getField` on `reflect.New(t)`: a field promoted through an embedded pointer is not
+        -- reachable on the zero struct (the panic is recovered): no return type
+        match fieldInfo recv acc with
+        | some (true, fty) => .ok fty
+        | _ => .panic .nilType
 
 /-- one element of a list under an accessor: the result is `reflect.Append`ed, which panics
     for an untyped nil -/
@@ -927,7 +1105,7 @@ def tagPathWith (v : Val) (args : Unit → Outcome (List Val)) : Outcome Val :=
     | .nil => some true
     | .slice _ _ isNil _ => some isNil
     | .nilNode _ => some true
-    | .doc _ | .node .. | .map _ => some false
+    | .doc _ | .node .. | .raw .. | .map _ => some false
     | _ => none
   match nillable with
   | none => .panic .isNil
@@ -941,11 +1119,12 @@ def tagPathWith (v : Val) (args : Unit → Outcome (List Val)) : Outcome Val :=
       let found ← mapO (fun x =>
         match x with
         | .node _ n => pure (if tags.isEmpty then [] else tagPath tags n)
+        | .raw _ n => pure (if tags.isEmpty then [] else tagPath tags n)
         | .nilNode _ => pure []                -- gedcom.NodesWithTagPath: IsNil(node) → nil
         | _ => Outcome.panic .notANode) elems
       let ns := found.flatten
       -- `var results gedcom.Nodes` stays nil until something is appended
-      let d := match elems with | .node d _ :: _ => d | _ => 0
+      let d := match elems with | .node d _ :: _ => d | .raw d _ :: _ => d | _ => 0
       pure (.slice "Nodes" .nodeI ns.isEmpty (ns.map (.node d)))
 
 /-- MergeDocumentsAndIndividualsExpr.Evaluate with two arguments (evaluated on a nil input) -/
@@ -1146,6 +1325,13 @@ def toJ : Val → Option J
   | .node _ n => some (nodeJ n)
   | .nilNode _ => some .null
   | .tag _ => some (.obj [])          -- a struct without exported fields
+  | .raw _ n => some (nodeJ n)
+  | .named _ i => some (.num i)
+  | .date p isEnd =>
+    -- ParseError is an `error`: nil → null; a *time.ParseError has exported fields (not modelled)
+    if p.parseError then none
+    else some (.obj [(ascii "Constraint", .num p.constraint.toNat), (ascii "Day", .num p.day), (ascii "IsEndOfRange", .bool isEnd),
+      (ascii "Month", .num p.month), (ascii "ParseError", .null), (ascii "Year", .num p.year)])
   | .slice _ _ isNil vs => if isNil then some .null else (toJs vs).map .arr
   | .map fs => (toJfs fs).map .obj
 def toJs : List Val → Option (List J)
@@ -1175,7 +1361,7 @@ structure FmtFlags where
   csvNilPanics : Bool     -- prepareLine calls ObjectMap() on a typed nil pointer
 
 def Val.nonNillable : Val → Bool
-  | .str _ | .int _ | .bool _ | .float _ _ | .someBool | .tag _ => true
+  | .str _ | .int _ | .bool _ | .float _ _ | .someBool | .tag _ | .date _ _ | .named _ _ => true
   | _ => false
 
 def Val.isNilLike : Val → Bool
@@ -1191,7 +1377,7 @@ def fmtGedcom (fl : FmtFlags) : Val → FmtOutcome
     if v.nonNillable then (if fl.isNilPanics then .panic else .error)
     else if v.isNilLike then .written
     else match v with
-      | .node .. | .doc _ => .written          -- GEDCOMStringer
+      | .node .. | .raw .. | .doc _ => .written          -- GEDCOMStringer
       | _ => .error
 def fmtGedcomList (fl : FmtFlags) : List Val → FmtOutcome
   | [] => .written
